@@ -263,3 +263,7 @@ impl View for OneHopPathView {
         unsafe { transmute(sized) }
     }
 }
+
+#[cfg(kani)]
+#[path = "/verif/kani/sciparse/onehop_view.rs"]
+mod verif_onehop_view;
